@@ -587,7 +587,7 @@ static void run_line(char *line) {
 		if (nullopt) { mtbl_writer_options_destroy(&o); tok[3] = (char *)"default"; }
 		if (!nullopt && strcmp(ARG(3), "default")) mtbl_writer_options_set_compression(o, comp_of(ARG(3)));
 		if (!nullopt && strcmp(ARG(4), "default")) mtbl_writer_options_set_compression_level(o, (int)IARG(4));
-		if (!nullopt && strcmp(ARG(5), "default")) mtbl_writer_options_set_block_size(o, (size_t)IARG(5));
+		if (!nullopt && strcmp(ARG(5), "default")) mtbl_writer_options_set_block_size(o, (size_t)strtoull(ARG(5), NULL, 10));
 		if (!nullopt && strcmp(ARG(6), "default")) mtbl_writer_options_set_block_restart_interval(o, (size_t)IARG(6));
 		if (!nullopt && IARG(7) >= 0) mtbl_writer_options_set_threadpool(o, pools[IARG(7)]);
 		long long plen = atoll(ARG(8));
@@ -613,10 +613,10 @@ static void run_line(char *line) {
 			writers[w] = mtbl_writer_init(ARG(2), o);
 		}
 		mtbl_writer_options_destroy(&o);
-		sb_printf(&s, "{\"e\":\"WInit\",\"w\":%d,\"path\":\"%s\",\"pool\":%ld,\"fd\":%s,\"prefix\":%lld,\"comp\":%d,\"level\":\"%s\",\"bs\":%ld,\"ri\":%ld,\"ok\":%s}",
+		sb_printf(&s, "{\"e\":\"WInit\",\"w\":%d,\"path\":\"%s\",\"pool\":%ld,\"fd\":%s,\"prefix\":%lld,\"comp\":%d,\"level\":\"%s\",\"bs\":%llu,\"ri\":%ld,\"ok\":%s}",
 			  w, ARG(2), IARG(7), (plen > 0 || (nt > 9 && (!strcmp(ARG(9), "fd") || !strcmp(ARG(9), "sparse")))) ? "true" : "false", plen,
 			  strcmp(ARG(3), "default") ? (int)comp_of(ARG(3)) : 2, ARG(4),
-			  strcmp(ARG(5), "default") ? IARG(5) : 8192L, strcmp(ARG(6), "default") ? IARG(6) : 16L,
+			  strcmp(ARG(5), "default") ? strtoull(ARG(5), NULL, 10) : 8192ULL, strcmp(ARG(6), "default") ? IARG(6) : 16L,
 			  writers[w] ? "true" : "false");
 	} else if (!strcmp(op, "w_add")) {
 		int w = IARG(1);
